@@ -184,7 +184,11 @@ func C18(c *Ctx) {
 				canary := bi == 0 && ci == 0
 				sumB, raceLog, err := b.RunConc(mine, cf.g, cf.iters, canary, cf.procs)
 				if err != nil {
-					c.Broken(err.Error())
+					if strings.Contains(err.Error(), "fatal error:") || strings.Contains(err.Error(), "panic:") || strings.Contains(err.Error(), "concurrent map") {
+						c.Report(&Violation{Class: "C18/crash", Summary: fmt.Sprintf("the process crashes while %d goroutines call Parse concurrently (GOMAXPROCS=%d): %s", cf.g, cf.procs, trunc(err.Error()))})
+					} else {
+						c.Broken(err.Error())
+					}
 					continue
 				}
 				var sum mon.ConcSummary
